@@ -459,6 +459,56 @@ func (e *c10env) together(cc c10col, a, b oval, comp c10col, x oval) []finding {
 	return fs
 }
 
+// chained: two updates of one row aggregated in ONE ModelUpdates, the second computed from
+// the model the first left there (GetModel), as the AddOperation contract asks. Computing
+// the second difference must not alter that model while it is still the caller's, and the
+// aggregate must lead from a to c.
+func (e *c10env) chained(cc c10col, a, b, o oval) []finding {
+	c := cc.col
+	kind := c.Desc()
+	var fs []finding
+	mk := func(v oval) (*ovsdb.Operation, error) {
+		op := ovsdb.Operation{Op: "update", Table: "T", Row: ovsdb.Row{c.Name: dyn.ToOvs(c, v.datum(c.IsMap()))}, Where: []ovsdb.Condition{}}
+		ob, _ := json.Marshal(op)
+		var wop ovsdb.Operation
+		err := json.Unmarshal(ob, &wop)
+		return &wop, err
+	}
+	op1, e1 := mk(b)
+	op2, e2 := mk(o)
+	if e1 != nil || e2 != nil {
+		return nil
+	}
+	mA := e.modelWith(c, a.native(c, false))
+	u := updates.ModelUpdates{}
+	if err := u.AddOperation(e.m.DB, "T", c10UUID, mA, op1); err != nil {
+		return nil // judged by pair()
+	}
+	mid := u.GetModel("T", c10UUID)
+	if mid == nil {
+		mid = mA // a -> b changed nothing
+	}
+	snap := deepCopyModel(mid)
+	if err := u.AddOperation(e.m.DB, "T", c10UUID, mid, op2); err != nil {
+		return []finding{{"C10/chained/error/" + kind, fmt.Sprintf("second update (%s -> %s -> %s) in one ModelUpdates failed: %v", a, b, o, err)}}
+	}
+	if !reflect.DeepEqual(mid, snap) {
+		fs = append(fs, finding{"C10/chained/alters-source-model/" + kind, fmt.Sprintf("computing the difference %s -> %s altered the model it was computed from (the result of %s -> %s)", b, o, a, b)})
+	}
+	want := o.datum(c.IsMap())
+	res := u.GetModel("T", c10UUID)
+	if a.datum(c.IsMap()).Equal(want) {
+		return fs // net zero: C11 judges what survives
+	}
+	if res == nil {
+		return append(fs, finding{"C10/chained/no-result/" + kind, fmt.Sprintf("%s -> %s -> %s in one ModelUpdates leaves no model", a, b, o)})
+	}
+	if got, err := dyn.FromNative(c, e.m.Field("T", res, c.Name)); err != nil || !got.Equal(want) {
+		fs = append(fs, finding{"C10/chained/law/" + kind, fmt.Sprintf("%s -> %s -> %s in one ModelUpdates ends at %v (err %v)", a, b, o, got, err)})
+	}
+	return fs
+}
+
 // peer applies an arbitrary peer difference d to a and compares with the update2 rules.
 func (e *c10env) peer(cc c10col, a, d oval) []finding {
 	c := cc.col
@@ -632,6 +682,7 @@ func c10Child(r *ev.Run, batch int) {
 					rep(e.pair(cc, a, b, (i+j)%2 == 0), cc, a, b)
 					rep(e.peer(cc, a, b), cc, a, b)
 					rep(e.direct(cc, a, b, sm[(i*7+j*3)%len(sm)]), cc, a, b)
+				rep(e.chained(cc, a, b, sm[(i*5+j*11)%len(sm)]), cc, a, b)
 					if comp := cols[(idx*5+3)%len(cols)]; comp.col.Name != cc.col.Name {
 						cs := comp.small()
 						r.Count("two_column_updates", 1)
